@@ -1,4 +1,5 @@
 import Abyss.Props.C17
+import Abyss.Lemmas.EngineStats
 #print axioms Abyss.C17_free_counts
 #print axioms Abyss.C17_key_stats
 #print axioms Abyss.C17_value_stats
@@ -7,3 +8,8 @@ import Abyss.Props.C17
 #print axioms Abyss.histOf_count
 #print axioms Abyss.histOf_sorted
 #print axioms Abyss.C06_walk_terminates
+#print axioms Abyss.sizeStats_bytes
+#print axioms Abyss.freeCounts_bytes
+#print axioms Abyss.fillingRate_bytes
+#print axioms Abyss.touchSize_eq_touch
+#print axioms Abyss.touchLength_eq_touch
